@@ -16,6 +16,7 @@ package vault
 import (
 	"errors"
 	"fmt"
+	"hash/fnv"
 	"sort"
 	"strings"
 	"testing"
@@ -85,9 +86,9 @@ func (t *c03apiTok) rules() []c03apiRule { // namespace-qualified
 }
 
 type c03apiProbe struct {
-	Op      string `json:"op"`               // read | list | scan | delete | patch | write
-	Cap     string `json:"capability"`       // capability that op needs (write: create or update by existence)
-	Outcome string `json:"outcome"`          // authorised | refused | other
+	Op      string `json:"op"`                // read | list | scan | delete | patch | write
+	Cap     string `json:"capability"`        // capability that op needs (write: create or update by existence)
+	Outcome string `json:"outcome"`           // authorised | refused | other
 	Handler string `json:"handler,omitempty"` // operation the backend handler saw
 	Resp    string `json:"response"`
 }
@@ -96,7 +97,8 @@ type c03apiRun struct {
 	t      *testing.T
 	r      *kit.Result
 	v      *vCore
-	rng    *kit.Rand
+	rng    *kit.Rand // world generation only
+	seed   int64
 	round  int
 	pols   map[string][]*c03apiPolicy // by namespace
 	self   map[string]*c03apiPolicy
@@ -359,6 +361,8 @@ func (x *c03apiRun) build() {
 		x.newToken(tag+"entity", "entity", ns, []*c03apiPolicy{kit.Pick(rng, rp)}, true)
 		if x.round == 0 {
 			x.newToken(tag+"entity-all", "entity", ns, []*c03apiPolicy{x.findPolicy(ns, "c03api-hp-all")}, true)
+		}
+		if x.round == 0 || ns == "" { // child namespaces refuse to issue root-policy tokens (noted once, in round 0)
 			x.newToken(tag+"rootpol", "root", ns, nil, false)
 		}
 	}
@@ -374,8 +378,20 @@ func (x *c03apiRun) findPolicy(ns, name string) *c03apiPolicy {
 	return nil
 }
 
-func (x *c03apiRun) paths(tokNS, reqNS string) []string {
-	rng := x.rng
+// c03apiHash gives PRNG stream / coin numbers that depend only on the case, so that a
+// single case can be replayed without running the others.
+func c03apiHash(parts ...string) uint64 {
+	h := fnv.New64a()
+	for _, p := range parts {
+		h.Write([]byte(p))
+		h.Write([]byte{0})
+	}
+	return h.Sum64()
+}
+
+func (x *c03apiRun) paths(tk *c03apiTok, reqNS string) []string {
+	tokNS := tk.NS
+	rng := kit.NewRand(x.seed, c03apiHash("paths", fmt.Sprint(x.round), tk.Name, reqNS))
 	if !c03apiInSubtree(reqNS, tokNS) {
 		// outside the token's subtree nothing can be granted: a short list is enough
 		return []string{"rec/data/k1", "rec/data/dir/", "rec/root/r1", "rec/data/k2"}
@@ -477,7 +493,7 @@ func (x *c03apiRun) probe(tk *c03apiTok, reqNS, path, op string) c03apiProbe {
 			lop = logical.CreateOperation
 			pr.Cap = "create"
 		}
-		if x.rng.Chance(1, 2) { // the client-side verb must not matter
+		if c03apiHash("verb", fmt.Sprint(x.round), tk.Name, reqNS, path)&1 == 1 { // the client-side verb must not matter
 			if lop == logical.CreateOperation {
 				lop = logical.UpdateOperation
 			} else {
@@ -841,7 +857,7 @@ func TestVerif_C03API_Capabilities(t *testing.T) {
 	r.Assume("create versus update is decided by the backend's existence check (the harness keeps every key in its initial state between probes); root-protected paths of the recording backend have no existence check, so writes there need update; writes to paths ending in '/' are refused by the server before authorisation and are not probed")
 	r.Assume("sys/capabilities-accessor looks the accessor up in the request namespace, so it is only required to answer in the token's own namespace; sys/capabilities-self is required to answer exactly when sys/capabilities reports update (or root) on sys/capabilities-self")
 
-	rounds := kit.N(2, 24)
+	rounds := kit.N(2, 240)
 	shard, nshards := kit.Shard()
 	for round := 0; round < rounds; round++ {
 		if round%nshards != shard {
@@ -853,14 +869,14 @@ func TestVerif_C03API_Capabilities(t *testing.T) {
 		func() {
 			v := vBoot(t, vOpts{Cache: round%2 == 1, Transactional: round%4 >= 2})
 			defer v.Close()
-			x := &c03apiRun{t: t, r: r, v: v, rng: kit.NewRand(seed, uint64(7000+round)), round: round,
+			x := &c03apiRun{t: t, r: r, v: v, rng: kit.NewRand(seed, uint64(7000+round)), seed: seed, round: round,
 				pols: map[string][]*c03apiPolicy{}, self: map[string]*c03apiPolicy{}, exists: map[string]bool{}}
 			x.build()
 			r.Count("rounds", 1)
 			r.Count("tokens", len(x.toks))
 			for _, tk := range x.toks {
 				for _, reqNS := range c03apiRequestNSs(tk.NS) {
-					for _, p := range x.paths(tk.NS, reqNS) {
+					for _, p := range x.paths(tk, reqNS) {
 						x.runCase(tk, reqNS, p)
 					}
 				}
